@@ -95,6 +95,7 @@ def unary_ops():
         "logm": lambda a: a.logm(),
         "sqrtm": lambda a: a.sqrtm(),
         "inv": lambda a: a.inv(),
+        "mul_0": lambda a: a * 0, "rmul_0": lambda a: 0.0 * a, "div_huge": lambda a: a / 1e300 / 1e300,
         "mul_2": lambda a: a * 2, "mul_m1": lambda a: a * -1, "mul_i": lambda a: a * 1j,
         "rmul_i": lambda a: 1j * a, "mul_h": lambda a: a * 0.5,
         "mul_phase": lambda a: a * (0.6 + 0.8j), "div_2": lambda a: a / 2,
